@@ -162,6 +162,9 @@ func Parse(s string) (*DPoP, error) {
 	if edKey, ok := rawKey.(ed25519.PublicKey); ok && len(edKey) != ed25519.PublicKeySize {
 		return nil, fmt.Errorf("%w: invalid jwk header: invalid Ed25519 public key length", ErrInvalidDPoP)
 	}
+	if err := jwx.ValidateAlgorithmForKey(headers.Algorithm(), rawKey); err != nil {
+		return nil, fmt.Errorf("%w: invalid alg: %w", ErrInvalidDPoP, err)
+	}
 	token, err := jwt.ParseString(s, jwt.WithKey(headers.Algorithm(), headers.JWK()))
 	if err != nil {
 		return nil, errors.Join(ErrInvalidDPoP, err)
